@@ -520,7 +520,7 @@ func workloads() []*workload {
 		{
 			Name: "conv2d", Suite: "dnn-layer", Archs: both,
 			ParamNames: []string{"n", "c", "h", "w", "outc", "k", "pad", "stride", "backward"}, Anchor: []int{1, 1, 28, 28, 3, 3, 0, 1, 0}, AnchorSrc: "sample default (not in the matrix)",
-			Sizes: [][]int{{1, 1, 5, 5, 1, 3, 0, 1, 0}, {1, 1, 8, 8, 2, 3, 1, 1, 1}, {2, 1, 9, 7, 3, 3, 1, 2, 0}, {2, 2, 9, 7, 3, 3, 1, 2, 0}, {1, 1, 28, 28, 3, 3, 0, 1, 0}},
+			Sizes: [][]int{{1, 1, 5, 5, 1, 3, 0, 1, 0}, {1, 1, 8, 8, 2, 3, 1, 1, 1}, {2, 1, 9, 7, 3, 3, 1, 2, 0}, {2, 2, 9, 7, 3, 3, 1, 2, 0}, {1, 1, 28, 28, 3, 3, 0, 1, 0}, {1, 1, 8, 8, 110, 3, 1, 1, 0}, {1, 2, 8, 8, 56, 3, 1, 1, 1}},
 			Admit: "kernel <= h+2*pad and <= w+2*pad, stride >= 1 (output size formula of the layer); all gputensor kernels guard their element index. Single GPU only (SelectGPU panics)",
 			Adm: func(p []int, c class) bool {
 				return p[5] <= p[2]+2*p[6] && p[5] <= p[3]+2*p[6] && p[7] >= 1 && p[0] >= 1 && p[1] >= 1 && p[4] >= 1
